@@ -20,7 +20,7 @@ class H:
 def enum_variants(rel_path, enum_name):
     import os
     text = open(os.path.join(C.REPO, rel_path)).read()
-    m = re.search(r'enum ' + enum_name + r'\s*\{(.*?)\n\}', text, re.S)
+    m = re.search(r'enum ' + enum_name + r'(?:<[^>{]*>)?\s*\{(.*?)\n\}', text, re.S)
     if not m:
         raise M.MirError('enum ' + enum_name + ' not found')
     return re.findall(r'^\s*([A-Z]\w*)\s*[\(\{,]', m.group(1), re.M)
